@@ -2,6 +2,7 @@ package main
 
 import (
 	"fmt"
+	"math"
 	"os"
 	"sort"
 	"strings"
@@ -143,13 +144,14 @@ func sweepCase(t *vlib.T, g *vlib.G, m *methodSpec, ls int, o *objective, conc i
 		}
 		if x.Outcome != "ok" {
 			bad++
+			cls := c.failureClass(x.Outcome, r.lg)
 			if traceViol {
-				fmt.Fprintf(os.Stderr, "VIOL %s | %s | %s\n", outcomeClass(x.Outcome), x.Outcome, c.String())
+				fmt.Fprintf(os.Stderr, "VIOL %s | %s | %s\n", cls, x.Outcome, c.String())
 			}
 			if bad <= 3 {
-				t.SubViolation(" cfg="+c.String(), outcomeClass(x.Outcome), map[string]any{"config": c.String(), "outcome": x.Outcome}, "Minimize did not return normally: %s [%s]", x.Outcome, c.String())
+				report(t, " cfg="+c.String(), cls, map[string]any{"config": c.String(), "outcome": x.Outcome}, "Minimize did not return normally: %s [%s]", x.Outcome, c.String())
 			}
-			statuses["!"+outcomeClass(x.Outcome)]++
+			statuses["!"+cls]++
 			return nil
 		}
 		t.Max("max_callbacks_per_run", int64(r.lg.nF+r.lg.nG+r.lg.nH))
@@ -165,7 +167,7 @@ func sweepCase(t *vlib.T, g *vlib.G, m *methodSpec, ls int, o *objective, conc i
 				fmt.Fprintf(os.Stderr, "VIOL %s | %s | %s | %s\n", class, msg, c.String(), describe(&r))
 			}
 			if bad <= 3 {
-				t.SubViolation(" cfg="+c.String(), class, map[string]any{"config": c.String(), "result": describe(&r)}, "%s [%s] result: %s", msg, c.String(), describe(&r))
+				report(t, " cfg="+c.String(), class, map[string]any{"config": c.String(), "result": describe(&r)}, "%s [%s] result: %s", msg, c.String(), describe(&r))
 			}
 		}
 		return &r
@@ -255,6 +257,37 @@ var traceViol = os.Getenv("VERIF_C19_TRACE") == "2"
 // backstop only: non-termination is detected earlier by the evaluation budget.
 func (c *runCfg) horizon() int {
 	return 3000000
+}
+
+// usesMoreThuente reports whether the configuration runs the More-Thuente line search
+// (explicitly, or as the default of CG).
+func (c *runCfg) usesMoreThuente() bool {
+	return c.m.usesLS && (c.ls == 3 || (c.ls == 0 && strings.HasPrefix(c.m.name, "CG/")))
+}
+
+// failureClass names the defect class of a run that did not return normally.
+func (c *runCfg) failureClass(oc string, lg *runLog) string {
+	switch {
+	case strings.HasPrefix(oc, "panic: "+budgetPanic):
+		if lg == nil || len(lg.lastX) == 0 {
+			return "minimize-no-termination"
+		}
+		atNaN := math.IsNaN(lg.lastX[0]) && (lg.nanStreak >= nanStreakBudget || lg.sameStreak >= sameStreakBudget)
+		switch {
+		case atNaN && c.usesMoreThuente():
+			// More-Thuente keeps returning the trial step NaN
+			return "morethuente-nan-step-no-termination"
+		case atNaN && c.m.usesLS:
+			// a NaN search direction was accepted as a descent direction
+			return "linesearch-nan-direction-no-termination"
+		case lg.sameStreak >= sameStreakBudget && c.usesMoreThuente():
+			return "morethuente-stalled-step-no-termination"
+		}
+		return "minimize-no-termination"
+	case strings.HasPrefix(oc, "panic") && c.m.name == "ListSearch" && strings.Contains(oc, "index out of range") && strings.Contains(oc, "listsearch.go"):
+		return "listsearch-inf-first-panics"
+	}
+	return outcomeClass(oc)
 }
 
 func outcomeClass(oc string) string {
